@@ -792,3 +792,231 @@ Section Colour.
       + eapply frame_trans; [apply ext_frame; eassumption|apply frame_upd; assumption].
   Qed.
 End Colour.
+
+(* ====================================================================================== *)
+(* reachability, snapshots                                                                 *)
+(* ====================================================================================== *)
+Inductive reach (h : heap) (r : loc) : loc -> Prop :=
+| reach_refl : reach h r r
+| reach_step : forall l o l', reach h r l -> lookup h l = Some o -> In (VRef l') (obj_vals o) -> reach h r l'.
+
+Lemma reach_trans : forall h r m l, reach h r m -> reach h m l -> reach h r l.
+Proof. intros h r m l H1 H2. induction H2; [assumption|]. eapply reach_step; eauto. Qed.
+
+Lemma reach_col : forall h c r l, Inv h c -> r < length h -> reach h r l -> l < length h /\ c l = c r.
+Proof.
+  intros h c r l HI Hr H. induction H as [|l o l' H IH Hl Hin]; [auto|].
+  destruct IH as [IH1 IH2]. destruct (HI l o Hl) as (Hv & _ & _). rewrite Forall_forall in Hv.
+  specialize (Hv _ Hin). simpl in Hv. destruct Hv. split; [assumption|congruence].
+Qed.
+
+Lemma reach_same : forall h h' r, (forall l, reach h r l -> lookup h' l = lookup h l) ->
+  forall l, reach h r l -> reach h' r l.
+Proof.
+  intros h h' r Hs l H. induction H as [|l o l' H IH Hl Hin]; [constructor|].
+  eapply reach_step; [exact IH| |exact Hin]. rewrite Hs; assumption.
+Qed.
+
+Lemma snap_same : forall n h h' v,
+  (forall r, v = VRef r -> forall l, reach h r l -> lookup h' l = lookup h l) ->
+  snap n h' v = snap n h v.
+Proof.
+  induction n as [|n IH]; intros h h' v Hs; destruct v as [p|r]; simpl; try reflexivity.
+  rewrite (Hs r eq_refl r (reach_refl _ _)).
+  destruct (lookup h r) as [o|] eqn:El; [|reflexivity].
+  assert (Hsub : forall x, In x (obj_vals o) -> snap n h' x = snap n h x).
+  { intros x Hin. apply IH. intros r' -> l Hl. apply (Hs r eq_refl). eapply reach_trans; [|exact Hl].
+    eapply reach_step; [apply reach_refl|exact El|exact Hin]. }
+  destruct o as [it items|items|vf es|f data dynl]; simpl in Hsub.
+  - f_equal. apply map_ext_in. exact Hsub.
+  - f_equal. apply map_ext_in. exact Hsub.
+  - f_equal. apply map_ext_in. intros kv Hin. f_equal. apply Hsub. apply in_map. assumption.
+  - f_equal. f_equal. f_equal. f_equal. apply map_ext_in. intros kv Hin. f_equal. apply Hsub. apply in_map. assumption.
+Qed.
+
+(* ====================================================================================== *)
+(* several configurations: the world invariant                                             *)
+(* ====================================================================================== *)
+Definition roots_ok (w : world) (c : col) : Prop :=
+  forall i r, nth_error (wroots w) i = Some r -> r < length (wh w) /\ c r = S i.
+Definition winv (sigma : fld) (w : world) (c : col) : Prop :=
+  Inv (wh w) c /\ fld_ok (length (wh w)) c sigma /\ roots_ok w c.
+Definition recol (c : col) (N a : nat) : col := fun l => if l <? N then c l else a.
+Definition agree (N : nat) (c c' : col) : Prop := forall l, l < N -> c' l = c l.
+
+Lemma agree_recol : forall c N a, agree N c (recol c N a).
+Proof. intros c N a l Hl. unfold recol. apply Nat.ltb_lt in Hl. rewrite Hl. reflexivity. Qed.
+
+Lemma vok_agree : forall N c c' x v, agree N c c' -> vok N c x v -> vok N c' x v.
+Proof. intros N c c' x [p|l] Ha H; simpl in *; auto. destruct H. split; [assumption|]. rewrite Ha; assumption. Qed.
+
+Lemma fld_ok_agree : forall N c c' f, agree N c c' -> fld_ok N c f -> fld_ok N c' f.
+Proof.
+  intros N c c' f Ha.
+  assert (Hd : forall df, dflt_ok N c df -> dflt_ok N c' df).
+  { intros [| | v | |] H; simpl in *; auto. eapply vok_agree; eauto. }
+  induction f as [df|it df IH|vf df IH|dyn fs IH] using fld_ind'; intros H; inversion H; subst.
+  - constructor; auto.
+  - constructor; auto.
+  - constructor; auto.
+  - constructor. rewrite Forall_forall in *. intros kf Hin. apply IH; auto.
+Qed.
+
+Lemma Inv_agree : forall h c c', agree (length h) c c' -> Inv h c -> Inv h c'.
+Proof.
+  intros h c c' Ha HI l o Hl. pose proof (lookup_lt _ _ _ Hl) as Hlt. destruct (HI l o Hl) as (H1 & H2 & H3).
+  repeat split.
+  - rewrite (Ha l Hlt). eapply Forall_impl; [|exact H1]. intros. eapply vok_agree; eauto.
+  - eapply Forall_impl; [|exact H2]. intros. eapply fld_ok_agree; eauto.
+  - rewrite (Ha l Hlt). assumption.
+Qed.
+
+Lemma good_recol : forall h c a, Inv h c -> good (recol c (length h) a) a h.
+Proof.
+  intros h c a HI. split.
+  - eapply Inv_agree; [apply agree_recol|assumption].
+  - intros l Hl. unfold recol. apply Nat.ltb_ge in Hl. rewrite Hl. reflexivity.
+Qed.
+
+Definition targets_avoid (c : col) (l : loc) (evs : list event) : Prop :=
+  forall i o, In (EOp i o) evs -> c l <> S i.
+
+Lemma wstep_spec : forall d sigma w c e, winv sigma w c ->
+  let w' := wstep true d sigma w e in
+  exists c', winv sigma w' c' /\ agree (length (wh w)) c c' /\ length (wh w) <= length (wh w') /\
+             (exists more, wroots w' = wroots w ++ more) /\
+             (forall l, l < length (wh w) -> targets_avoid c l [e] -> lookup (wh w') l = lookup (wh w) l).
+Proof.
+  intros d sigma w c e (HI & Hf & Hr).
+  assert (Hsame : exists c', winv sigma w c' /\ agree (length (wh w)) c c' /\ length (wh w) <= length (wh w) /\
+             (exists more, wroots w = wroots w ++ more) /\
+             (forall l, l < length (wh w) -> targets_avoid c l [e] -> lookup (wh w) l = lookup (wh w) l)).
+  { exists c. split; [exact (conj HI (conj Hf Hr))|]. split; [intros l _; reflexivity|]. split; [lia|].
+    split; [exists []; rewrite app_nil_r; reflexivity|]. reflexivity. }
+  destruct e as [|i o]; simpl.
+  - (* build *)
+    set (a := S (length (wroots w))). set (c1 := recol c (length (wh w)) a).
+    destruct (inst true d sigma (wh w) None) as [[h1 v]|] eqn:Ei; [|exact Hsame].
+    destruct v as [p|r]; [exact Hsame|].
+    assert (Ha : a <> 0) by (unfold a; lia).
+    destruct (inst_spec c1 a Ha d sigma (wh w) None (good_recol _ _ _ HI)
+                ltac:(eapply fld_ok_agree; [apply agree_recol|exact Hf]) I h1 (VRef r) Ei) as (E1 & G1 & V1).
+    pose proof (ext_length _ _ E1) as L1.
+    exists c1. split; [|split; [apply agree_recol|split; [assumption|split; [eexists; reflexivity|]]]].
+    + split; [exact (proj1 G1)|]. split; [eapply fld_ok_mono; [exact L1|]; eapply fld_ok_agree; [apply agree_recol|exact Hf]|].
+      intros i r' Hn. simpl in *. destruct (Nat.lt_ge_cases i (length (wroots w))) as [Hi|Hi].
+      * rewrite nth_error_app1 in Hn by assumption. destruct (Hr i r' Hn) as [Hr1 Hr2]. split; [lia|].
+        unfold c1. rewrite agree_recol; assumption.
+      * rewrite nth_error_app2 in Hn by assumption. destruct (i - length (wroots w)) as [|k] eqn:Ek; simpl in Hn.
+        -- inversion Hn; subst r'. simpl in V1. destruct V1 as [V1 V2]. split; [assumption|]. rewrite V2. unfold a. lia.
+        -- destruct k; discriminate.
+    + intros l Hl _. simpl. apply ext_lookup; assumption.
+  - (* an operation on configuration i *)
+    destruct (nth_error (wroots w) i) as [r|] eqn:En; [|exact Hsame].
+    destruct (Hr i r En) as [Hr1 Hr2].
+    set (a := S i). set (c1 := recol c (length (wh w)) a).
+    assert (Ha : a <> 0) by (unfold a; lia).
+    destruct (step_spec c1 a Ha d (wh w) r o (good_recol _ _ _ HI) Hr1
+                ltac:(unfold c1; rewrite agree_recol; assumption)) as (G1 & L1 & F1).
+    exists c1. split; [|split; [apply agree_recol|split; [assumption|split; [exists []; rewrite app_nil_r; reflexivity|]]]].
+    + split; [exact (proj1 G1)|]. split; [eapply fld_ok_mono; [exact L1|]; eapply fld_ok_agree; [apply agree_recol|exact Hf]|].
+      intros j r' Hn. simpl in *. destruct (Hr j r' Hn) as [Hj1 Hj2]. split; [lia|]. unfold c1. rewrite agree_recol; assumption.
+    + intros l Hl Hav. simpl. apply F1; [assumption|]. unfold c1. rewrite agree_recol by assumption.
+      apply (Hav i o). left. reflexivity.
+Qed.
+
+Lemma wrun_spec : forall d sigma evs w c, winv sigma w c ->
+  let w' := wrun true d sigma w evs in
+  exists c', winv sigma w' c' /\ agree (length (wh w)) c c' /\ length (wh w) <= length (wh w') /\
+             (exists more, wroots w' = wroots w ++ more) /\
+             (forall l, l < length (wh w) -> targets_avoid c l evs -> lookup (wh w') l = lookup (wh w) l).
+Proof.
+  intros d sigma. induction evs as [|e evs IH]; intros w c Hw; simpl.
+  - exists c. split; [assumption|]. split; [intros l _; reflexivity|]. split; [lia|].
+    split; [exists []; rewrite app_nil_r; reflexivity|]. reflexivity.
+  - destruct (wstep_spec d sigma w c e Hw) as (c1 & W1 & A1 & L1 & [m1 R1] & F1).
+    destruct (IH (wstep true d sigma w e) c1 W1) as (c2 & W2 & A2 & L2 & [m2 R2] & F2).
+    exists c2. split; [exact W2|]. split; [|split; [unfold wrun in *; simpl in *; lia|split]].
+    + intros l Hl. rewrite A2 by lia. apply A1. assumption.
+    + exists (m1 ++ m2). unfold wrun in *. simpl in *. rewrite R2, R1, app_assoc. reflexivity.
+    + intros l Hl Hav. unfold wrun in *. simpl in *. rewrite F2.
+      * apply F1; [assumption|]. intros i o [Hin|[]]. apply (Hav i o). left. assumption.
+      * lia.
+      * intros i o Hin. rewrite A1 by assumption. apply (Hav i o). right. assumption.
+Qed.
+
+(* ====================================================================================== *)
+(* schema definition time                                                                  *)
+(* ====================================================================================== *)
+Definition c0 : col := fun _ => 0.
+
+Lemma mat_dflt_spec : forall df h h' df', good c0 0 h -> text_dflt df = true -> mat_dflt df h = Some (h', df') ->
+  ext h h' /\ good c0 0 h' /\ dflt_ok (length h') c0 df' /\ (scalar_dflt df = true -> forall l, df' <> DVal (VRef l)).
+Proof.
+  intros df h h' df' Hg Ht Hm. destruct df as [|t|v|t|ts]; simpl in *; try discriminate.
+  - inversion Hm; subst. split; [apply ext_refl|]. split; [assumption|]. split; [exact I|]. intros _ l; discriminate.
+  - destruct (alloc_tree t h) as [[h1 v]|] eqn:Et; [|discriminate]. inversion Hm; subst.
+    destruct (alloc_tree_spec c0 0 t h Hg h' v Et) as (E & G & V). split; [assumption|]. split; [assumption|]. split; [exact V|].
+    intros Hs l Hc. destruct t; try discriminate. simpl in Et. inversion Et; subst. discriminate.
+  - inversion Hm; subst. split; [apply ext_refl|]. split; [assumption|]. split; [exact I|]. intros _ l; discriminate.
+Qed.
+
+Lemma materialize_spec : forall d f h h' f', good c0 0 h -> spec_ok f = true -> materialize d f h = Some (h', f') ->
+  ext h h' /\ good c0 0 h' /\ fld_ok (length h') c0 f'.
+Proof.
+  intros d. induction f as [df|it df IH|vf df IH|dyn fs IH] using fld_ind'; intros h h' f' Hg Hs Hm; simpl in Hs, Hm.
+  - destruct (mat_dflt df h) as [[h1 df']|] eqn:Ed; [|discriminate]. inversion Hm; subst.
+    assert (Ht : text_dflt df = true) by (destruct df as [|[]| | |]; simpl in *; congruence).
+    destruct (mat_dflt_spec df h h' df' Hg Ht Ed) as (E & G & D & S). split; [assumption|]. split; [assumption|].
+    constructor; auto.
+  - apply andb_true_iff in Hs. destruct Hs as [Ht Hi]. destruct it as [fi|].
+    + destruct (materialize d fi h) as [[h1 fi']|] eqn:Em; [|discriminate].
+      destruct (IH fi eq_refl h h1 fi' Hg Hi Em) as (E1 & G1 & F1).
+      destruct df as [|t|v|t|ts]; try discriminate;
+        (match type of Hm with context [mat_dflt ?x h1] => destruct (mat_dflt x h1) as [[h2 df']|] eqn:Ed; [|discriminate];
+           destruct (mat_dflt_spec x h1 h2 df' G1 eq_refl Ed) as (E2 & G2 & D2 & _) end;
+         inversion Hm; subst; pose proof (ext_length _ _ E2);
+         split; [eapply ext_trans; eauto|]; split; [assumption|]; constructor; [assumption|];
+         intros fi0 Ef; inversion Ef; subst; eapply fld_ok_mono; eauto).
+    + destruct (mat_dflt df h) as [[h1 df']|] eqn:Ed; [|discriminate]. inversion Hm; subst.
+      destruct (mat_dflt_spec df h h' df' Hg Ht Ed) as (E & G & D & _). split; [assumption|]. split; [assumption|].
+      constructor; [assumption|]. intros fi0 Ef; discriminate.
+  - apply andb_true_iff in Hs. destruct Hs as [Ht Hi].
+    destruct (mat_dflt df h) as [[h1 df']|] eqn:Ed; [|discriminate].
+    destruct (mat_dflt_spec df h h1 df' Hg Ht Ed) as (E1 & G1 & D1 & _). destruct vf as [fv|].
+    + destruct (materialize d fv h1) as [[h2 fv']|] eqn:Em; [|discriminate]. inversion Hm; subst.
+      destruct (IH fv eq_refl h1 h' fv' G1 Hi Em) as (E2 & G2 & F2). pose proof (ext_length _ _ E2).
+      split; [eapply ext_trans; eauto|]. split; [assumption|]. constructor; [eapply dflt_ok_mono; eauto|].
+      intros fi0 Ef; inversion Ef; subst; assumption.
+    + inversion Hm; subst. split; [assumption|]. split; [assumption|]. constructor; [assumption|]. intros fi0 Ef; discriminate.
+  - match type of Hm with context [maph ?g h fs] => destruct (maph g h fs) as [[h1 fs']|] eqn:Em; [|discriminate];
+      destruct (maph_spec c0 0 g (fun _ (kf : str * fld) => spec_ok (snd kf) = true) (fun n (kf : str * fld) => fld_ok n c0 (snd kf)) 0
+                  ltac:(auto) ltac:(intros; eapply fld_ok_mono; eauto) fs
+                  ltac:(intros [k fk] Hin h0 h0' y G0 _ S0 E0;
+                        destruct (materialize d fk h0) as [[h2 y2]|] eqn:E2; [|discriminate]; inversion E0; subst;
+                        rewrite Forall_forall in IH; exact (IH (k, fk) Hin h0 h0' y2 G0 S0 E2))
+                  h h1 fs' Hg ltac:(lia) ltac:(apply Forall_forall; rewrite forallb_forall in Hs; exact Hs) Em) as (E1 & G1 & P1) end.
+    inversion Hm; subst. split; [assumption|]. split; [assumption|]. constructor. assumption.
+Qed.
+
+Lemma init_winv : forall d sigma_text h0 sigma, spec_ok sigma_text = true -> materialize d sigma_text [] = Some (h0, sigma) ->
+  winv sigma {| wh := h0; wroots := [] |} c0.
+Proof.
+  intros d st h0 sigma Hs Hm.
+  assert (Hg : good c0 0 []).
+  { split; [|reflexivity]. intros l o Hl. destruct l; discriminate. }
+  destruct (materialize_spec d st [] h0 sigma Hg Hs Hm) as (E & G & F).
+  split; [exact (proj1 G)|]. split; [exact F|]. intros i r Hn. destruct i; discriminate.
+Qed.
+
+Lemma default_vals_ok : forall N c f v, fld_ok N c f -> In v (default_vals f) -> vok N c 0 v.
+Proof.
+  intros N c.
+  assert (Hd : forall df v, dflt_ok N c df -> In v (dflt_vals df) -> vok N c 0 v).
+  { intros [| | v0 | |] v H Hin; simpl in *; try contradiction. destruct Hin as [<-|[]]. assumption. }
+  induction f as [df|it df IH|vf df IH|dyn fs IH] using fld_ind'; intros v H Hin; inversion H; subst; simpl in Hin.
+  - eauto.
+  - apply in_app_or in Hin. destruct Hin as [Hin|Hin]; [eauto|]. destruct it as [fi|]; [|contradiction]. eapply IH; eauto.
+  - apply in_app_or in Hin. destruct Hin as [Hin|Hin]; [eauto|]. destruct vf as [fv|]; [|contradiction]. eapply IH; eauto.
+  - apply in_flat_map in Hin. destruct Hin as [kf [Hk Hin]]. rewrite Forall_forall in *. eapply IH; eauto.
+Qed.
